@@ -1,8 +1,98 @@
 (* Props/C18.v — the theorems that decide property C18.  Statements only. *)
 From CKB Require Import Indexer.Indexer Indexer.Query Indexer.Canon Indexer.SameAnswers
-  Indexer.ScriptMatch Indexer.Paging Indexer.QueryProofs Indexer.IndexerExamples.
+  Indexer.ScriptMatch Indexer.Paging Indexer.QueryProofs Indexer.IndexerExamples
+  Indexer.IndexerInv Indexer.IndexerProofs Indexer.InvEquiv.
 From Coq Require Import Permutation Sorted.
 
+
+(* ======================================================================== *)
+(* indexer_eq_filter.  [ops] is any sequence of appends and rollbacks that
+   follows a valid chain through reorganisations (ops_ok: every appended block
+   is a consistent continuation of the current main chain — inputs spend cells
+   live at that point, created in earlier blocks or earlier in the same block,
+   tx ids fresh; the genesis block is never rolled back; rollbacks stay within
+   the retention).  [canon_store ch] is the reference store holding exactly the
+   rows of the replayed chain (next theorem).  EVERY query — tip, live cells /
+   transactions by script, get_cells, get_cells_capacity, get_transactions
+   ungrouped and grouped, any search mode, filter, order, limit, cursor —
+   answers on the indexer's store as it does on the replay of the main chain. *)
+Theorem c18_indexer_eq_filter : forall keep interval ops s,
+  ops_ok keep interval ix_empty ops = true -> irun keep interval ix_empty ops = Some s ->
+  forall q, run_query (ix_store s) q = run_query (canon_store (ix_chain s)) q.
+Proof. exact indexer_eq_filter_all. Qed.
+
+(* what the reference store holds: the tip of the chain, and in the script
+   tables exactly the rows of the live cells / of the transaction history *)
+Theorem c18_canon_store_is_replay : forall ch,
+  tip (canon_store ch) = chain_tip ch /\
+  (forall lock, cell_rows lock (canon_store ch) = spec_cell_rows lock ch) /\
+  (forall lock, tx_rows lock (canon_store ch) = spec_tx_rows lock ch).
+Proof. intros ch. exact (conj (canon_tip ch) (conj (fun l => canon_cell_rows l ch) (fun l => canon_tx_rows l ch))). Qed.
+
+(* the same, spelled out for the rows and for the script scans of indexer.rs *)
+Theorem c18_indexer_eq_filter_rows : forall keep interval ops s,
+  ops_ok keep interval ix_empty ops = true -> irun keep interval ix_empty ops = Some s ->
+  tip (ix_store s) = chain_tip (ix_chain s) /\
+  (forall lock, Permutation (cell_rows lock (ix_store s)) (spec_cell_rows lock (ix_chain s))) /\
+  (forall lock, Permutation (tx_rows lock (ix_store s)) (spec_tx_rows lock (ix_chain s))) /\
+  (forall op, get (ix_store s) (KOutPoint op) =
+     match lookup_cell (live (ix_chain s)) op with
+     | Some c => Some (VCell (lc_bn c) (lc_txi c) (lc_out c))
+     | None => None end).
+Proof. exact indexer_eq_filter_rows. Qed.
+
+Theorem c18_indexer_eq_filter_scans : forall keep interval ops s,
+  ops_ok keep interval ix_empty ops = true -> irun keep interval ix_empty ops = Some s ->
+  tip (ix_store s) = chain_tip (ix_chain s) /\
+  (forall lock p, live_cells_by_script (ix_store s) lock p = spec_live_cells_by_script (ix_chain s) lock p) /\
+  (forall lock p, transactions_by_script (ix_store s) lock p = spec_transactions_by_script (ix_chain s) lock p).
+Proof. exact indexer_eq_filter. Qed.
+
+(* a valid append never hits one of the code's expect()s *)
+Theorem c18_valid_append_never_panics : forall keep interval ops s b,
+  ops_ok keep interval ix_empty ops = true -> irun keep interval ix_empty ops = Some s ->
+  block_ok (ix_chain s) b = true -> append_panics (ix_store s) b = false.
+Proof. intros keep interval ops s b H1 H2. exact (valid_append_never_panics s b (inv_reachable keep interval ops s H1 H2)). Qed.
+
+(* rollback_inverts_append: in any reachable state, appending a valid block
+   and rolling it back (within the retention: op_ok) restores the answer to
+   every query.  (ConsumedOutPoint rows stay behind by design; no query reads
+   them.) *)
+Theorem c18_rollback_inverts_append : forall keep interval ops s b s1 s2,
+  ops_ok keep interval ix_empty ops = true -> irun keep interval ix_empty ops = Some s ->
+  block_ok (ix_chain s) b = true ->
+  istep keep interval s (OAppend b) = Some s1 -> op_ok s1 ORollback = true ->
+  istep keep interval s1 ORollback = Some s2 ->
+  forall q, run_query (ix_store s2) q = run_query (ix_store s) q.
+Proof. intros keep interval ops s b s1 s2 H1 H2. exact (rollback_inverts_append_all keep interval s b s1 s2 (inv_reachable keep interval ops s H1 H2)). Qed.
+
+(* same_block_create_spend: a cell created by t1 and spent by a later t2 of the
+   same block B of the main chain is in no live-cell answer *)
+Theorem c18_same_block_create_spend : forall keep interval ops s chp B rest pre1 t1 mid t2 post oi,
+  ops_ok keep interval ix_empty ops = true -> irun keep interval ix_empty ops = Some s ->
+  ix_chain s = chp ++ B :: rest ->
+  b_txs B = pre1 ++ t1 :: mid ++ t2 :: post ->
+  (oi < length (t_outputs t1))%nat ->
+  In (t_id t1, N.of_nat oi) (t_inputs t2) ->
+  get (ix_store s) (KOutPoint (t_id t1, N.of_nat oi)) = None /\
+  (forall lock p, ~ In (t_id t1, N.of_nat oi) (live_cells_by_script (ix_store s) lock p)) /\
+  (forall c, In c (live (ix_chain s)) -> lc_op c <> (t_id t1, N.of_nat oi)).
+Proof. exact same_block_create_spend. Qed.
+
+(* prune touches no live row, and not the tip *)
+Theorem c18_prune_keeps_live : forall st keep,
+  (forall lock, cell_rows lock (prune st keep) = cell_rows lock st) /\
+  (forall lock, tx_rows lock (prune st keep) = tx_rows lock st) /\
+  (forall k, live_key k = true -> get (prune st keep) k = get st k) /\
+  (forall op, get (prune st keep) (KOutPoint op) = get st (KOutPoint op)).
+Proof. exact prune_keeps_live. Qed.
+Theorem c18_prune_keeps_tip : forall keep interval ops s keep',
+  ops_ok keep interval ix_empty ops = true -> irun keep interval ix_empty ops = Some s ->
+  tip (prune (ix_store s) keep') = tip (ix_store s).
+Proof. intros keep interval ops s keep' H1 H2. exact (prune_keeps_tip s keep' (inv_reachable keep interval ops s H1 H2)). Qed.
+
+(* ======================================================================== *)
+(* the query layer *)
 (* Every answer of the query layer — tip, live cells / transactions by script,
    get_cells, get_cells_capacity, get_transactions (ungrouped and grouped), for
    every search mode, filter, order, limit and cursor — is a function of the
@@ -80,6 +170,41 @@ Theorem c18_example_nontrivial :
     /\ ix_floor s = 3%N.
 Proof. exact example_nontrivial. Qed.
 
+(* the hypotheses of c18_rollback_inverts_append and c18_same_block_create_spend are met *)
+Theorem c18_example_rollback_hyps :
+  exists s s1 s2, irun 3 2 ix_empty (firstn 6 example_ops) = Some s
+    /\ ops_ok 3 2 ix_empty (firstn 6 example_ops) = true
+    /\ block_ok (ix_chain s) ex_b6 = true
+    /\ istep 3 2 s (OAppend ex_b6) = Some s1
+    /\ op_ok s1 ORollback = true
+    /\ istep 3 2 s1 ORollback = Some s2
+    /\ length (ix_store s1) <> length (ix_store s2).
+Proof. exact example_rollback_hyps. Qed.
+Theorem c18_example_same_block_hyps :
+  exists s, irun 3 2 ix_empty example_ops = Some s
+    /\ ix_chain s = [ex_b0] ++ ex_b1 :: [ex_b2; ex_b3; ex_b4; ex_c5; ex_c6; ex_c7]
+    /\ b_txs ex_b1 = [cb 2 sC] ++ mkTx 3 [(1, 0)]%N [mkOut sB None 500 []; mkOut sA (Some tT) 400 []]
+                      :: [] ++ mkTx 4 [(3, 0)]%N [mkOut sC None 450 []] :: []
+    /\ In (3, N.of_nat 0)%N (t_inputs (mkTx 4 [(3, 0)]%N [mkOut sC None 450 []])).
+Proof. exact example_same_block_hyps. Qed.
+Theorem c18_example_prune_fires :
+  exists s6 s7, irun 3 2 ix_empty (firstn 6 example_ops) = Some s6
+    /\ irun 3 2 ix_empty (firstn 7 example_ops) = Some s7
+    /\ length (ix_store s6) = 62 /\ length (ix_store s7) = 59.
+Proof. exact example_prune_fires. Qed.
+
+Redirect "out/C18.c18_indexer_eq_filter" Print Assumptions c18_indexer_eq_filter.
+Redirect "out/C18.c18_canon_store_is_replay" Print Assumptions c18_canon_store_is_replay.
+Redirect "out/C18.c18_indexer_eq_filter_rows" Print Assumptions c18_indexer_eq_filter_rows.
+Redirect "out/C18.c18_indexer_eq_filter_scans" Print Assumptions c18_indexer_eq_filter_scans.
+Redirect "out/C18.c18_valid_append_never_panics" Print Assumptions c18_valid_append_never_panics.
+Redirect "out/C18.c18_rollback_inverts_append" Print Assumptions c18_rollback_inverts_append.
+Redirect "out/C18.c18_same_block_create_spend" Print Assumptions c18_same_block_create_spend.
+Redirect "out/C18.c18_prune_keeps_live" Print Assumptions c18_prune_keeps_live.
+Redirect "out/C18.c18_prune_keeps_tip" Print Assumptions c18_prune_keeps_tip.
+Redirect "out/C18.c18_example_rollback_hyps" Print Assumptions c18_example_rollback_hyps.
+Redirect "out/C18.c18_example_same_block_hyps" Print Assumptions c18_example_same_block_hyps.
+Redirect "out/C18.c18_example_prune_fires" Print Assumptions c18_example_prune_fires.
 Redirect "out/C18.c18_same_answers" Print Assumptions c18_same_answers.
 Redirect "out/C18.c18_scan_sorted" Print Assumptions c18_scan_sorted.
 Redirect "out/C18.c18_exact_mode_cell_rows" Print Assumptions c18_exact_mode_cell_rows.
